@@ -15,6 +15,7 @@ fn family(name: &str) -> Option<fn(&str) -> String> {
         "session" => fam_engine::session,
         "eval" => fam_engine::eval,
         "refsearch" => fam_ref::refsearch,
+        "refsearchhist" => fam_ref::refsearch_hist,
         "pvcheck" => fam_ref::pvcheck,
         "pgn" => fam_pgn::run,
         "lichess" => fam_lichess::run,
